@@ -450,6 +450,73 @@ func c12CtxEnds(t *testing.T, c *ev.Collector) {
 	}
 }
 
+// c12RequestReuse: a *connect.Request value that already went through a
+// client of another procedure, or that a handler received and forwards to a
+// backend client, is sent through the client under test: its interceptors must
+// see that client's own Spec (procedure, stream type, IsClient).
+func c12RequestReuse(t *testing.T, c *ev.Collector) {
+	const otherProc = "/other.v1.OtherService/Other"
+	idx := 0
+	for _, p := range AllProtos {
+		for _, how := range []string{"sent-through-another-client", "forwarded-by-a-handler"} {
+			idx++
+			if !ev.Mine(idx) {
+				continue
+			}
+			key := fmt.Sprintf("request-reuse/%s/%s", p, how)
+			c.Case(key, true)
+			Bubble(t, func() {
+				cc := &c12Counts{}
+				backend := NewHandler(KUnary, func(ctx context.Context, s HStream) error { return s.Send(&BV{Value: []byte{1}}) })
+				trB := &memhttp.Transport{Handler: backend, Proto: 2, SyncCloseReq: true}
+				opts := append(Cfg{Proto: p, Comp: CompNone}.ClientOptions(), connect.WithInterceptors(countI{cc}))
+				under := connect.NewClient[BV, BV](trB, BaseURL+Procedure, opts...)
+				var callErr error
+				var g GuardResult
+				if how == "sent-through-another-client" {
+					other := connect.NewUnaryHandler(otherProc, func(ctx context.Context, r *connect.Request[BV]) (*connect.Response[BV], error) {
+						return connect.NewResponse(&BV{}), nil
+					})
+					trO := &memhttp.Transport{Handler: other, Proto: 2, SyncCloseReq: true}
+					clO := connect.NewClient[BV, BV](trO, BaseURL+otherProc, Cfg{Proto: p, Comp: CompNone}.ClientOptions()...)
+					req := connect.NewRequest(&BV{Value: []byte{7}})
+					g = Guarded(func() {
+						_, _ = clO.CallUnary(context.Background(), req)
+						_, callErr = under.CallUnary(context.Background(), req)
+					}, trO, trB)
+				} else {
+					front := connect.NewUnaryHandler(otherProc, func(ctx context.Context, r *connect.Request[BV]) (*connect.Response[BV], error) {
+						return under.CallUnary(ctx, r) // the received request itself is forwarded
+					})
+					trF := &memhttp.Transport{Handler: front, Proto: 2, SyncCloseReq: true}
+					clF := connect.NewClient[BV, BV](trF, BaseURL+otherProc, Cfg{Proto: p, Comp: CompNone}.ClientOptions()...)
+					g = Guarded(func() {
+						_, callErr = clF.CallUnary(context.Background(), connect.NewRequest(&BV{Value: []byte{7}}))
+					}, trF, trB)
+				}
+				c.AddTransitions(4)
+				c.AddStates(4)
+				c.AddTraces(2)
+				tags := []string{"kind=unary", "proto=" + p.String(), "spec-agreement", "request-reused"}
+				switch {
+				case g.Hung || g.Panicked || callErr != nil:
+					c.Violation("TestC12", "spec-agreement", "call-failed", tags, key, "%s: hung=%v panic=%v err=%v", key, g.Hung, g.Panic, callErr)
+					c.Outcome("violation")
+					BailIfStuck(c, g)
+				case len(cc.specs) != 1:
+					c.Violation("TestC12", "spec-agreement", "count", tags, key, "%s: the client's interceptor ran %d times", key, len(cc.specs))
+					c.Outcome("violation")
+				case cc.specs[0].Procedure != Procedure || cc.specs[0].StreamType != connect.StreamTypeUnary || !cc.specs[0].IsClient:
+					c.Violation("TestC12", "spec-agreement", "differs", tags, key, "%s: the interceptors of the client built for %s saw %+v", key, Procedure, cc.specs[0])
+					c.Outcome("violation")
+				default:
+					c.Outcome("spec-ok")
+				}
+			})
+		}
+	}
+}
+
 func TestC12(t *testing.T) {
 	c := ev.New("C12")
 	defer func() { _ = c.Finish() }()
@@ -499,5 +566,6 @@ func TestC12(t *testing.T) {
 	}
 	c12SpecAgreement(t, c)
 	c12CtxEnds(t, c)
+	c12RequestReuse(t, c)
 	_ = io.EOF
 }
